@@ -318,13 +318,28 @@ func (run *Run) WriteEvidence(dir string, out *Outcome) (string, error) {
 	for k, v := range run.Extra {
 		cov[k] = v
 	}
+	// the schema wants arrays, never null
+	if supp == nil {
+		cov["suppressions"] = []Suppression{}
+	}
+	if out.Errors == nil {
+		cov["checker_errors"] = []string{}
+	}
+	if samples == nil {
+		cov["samples"] = []interface{}{}
+	}
+	if run.Controls == nil {
+		cov["control_results"] = []Control{}
+	}
+	assumptions := append([]string{}, run.Assumptions...)
+	assumptions = append(assumptions, run.Trusted...)
 	ev := map[string]interface{}{
 		"property_id": run.Property,
 		"tier":        run.Tier,
 		"seed":        run.Seed,
 		"level":       "other",
 		"coverage":    cov,
-		"assumptions": run.Assumptions,
+		"assumptions": assumptions,
 		"wall_s":      time.Since(run.Started).Seconds(),
 		"violations":  len(out.Violations),
 	}
